@@ -518,6 +518,23 @@ def cache_variants() -> Optional[dict]:
                         "what": f"cache around a validator with async-only predicates: {x!r} was validated (and stored) asynchronously; the sync call for the stored input raised {e!r}"}
             if second.is_valid != first.is_valid:
                 return {"signature": "C20:variants", "what": f"async miss then sync hit on {x!r}: {first!r} then {second!r}"}
+        # (vi) a call in which the wrapped validator raised produced no result: nothing is stored for it, asking again
+        # asks the validator again
+        cache3 = LogCache(IntValidator(predicates_async=[_Even()]), "eq", ct)
+        for attempt in (1, 2):
+            try:
+                r_ = cache3(4)
+                return {"signature": "C20:variants",
+                        "what": f"cache around a validator that cannot run synchronously: sync call {attempt} for a value never validated before returned {r_!r} instead of raising as the validator does"}
+            except AssertionError:
+                pass
+            except Exception as e:  # noqa
+                return {"signature": "C20:variants", "what": f"cache around a validator that cannot run synchronously: sync call {attempt} raised {e!r}, the validator alone raises AssertionError"}
+        if cache3.store:
+            return {"signature": "C20:variants", "what": f"calls in which the wrapped validator raised left entries in the store: {cache3.store!r}"}
+        after = drive(cache3.validate_async(4))
+        if not getattr(after, "is_valid", False):
+            return {"signature": "C20:variants", "what": f"after two sync calls that raised, the awaited call for the same value returned {after!r}; the validator alone accepts it"}
         # (iii) a wrapped user subclass overriding the public entry points
         v = Shouting()
         cache = LogCache(v, "eq", ct)
